@@ -16,8 +16,9 @@ import (
 
 func init() {
 	register(&Scenario{
-		Prop: "C25",
-		Run:  runC25,
+		Prop:      "C25",
+		Run:       runC25,
+		NeedsRace: true,
 		Real: []string{
 			"api.Evaluate of (map-parallel (verif-source) verif-f) and (map ...) with the real VM, api.Context.Fork, functions.mapParallelCollection (dispatcher, workers, errgroup cancellation, both selects), consumed through Begin/Next/Key/Value",
 		},
